@@ -70,14 +70,26 @@ class Empty(Expression):
             return True
         return isinstance(other, (list, dict, str)) and not other
 
-    def __str__(self) -> str:  # pragma: no cover
+    def __str__(self) -> str:
+        return "empty"
+
+    def evaluate(self, _: RenderContext) -> Empty:
+        return _EmptyValue(self.token)
+
+    def children(self) -> list[Expression]:
+        return []
+
+
+class _EmptyValue(Empty):
+    """The value of the `empty` keyword, which renders as an empty string."""
+
+    __slots__ = ()
+
+    def __str__(self) -> str:
         return ""
 
     def evaluate(self, _: RenderContext) -> Empty:
         return self
-
-    def children(self) -> list[Expression]:
-        return []
 
 
 class Blank(Expression):
@@ -90,14 +102,26 @@ class Blank(Expression):
             return True
         return isinstance(other, Blank)
 
-    def __str__(self) -> str:  # pragma: no cover
+    def __str__(self) -> str:
+        return "blank"
+
+    def evaluate(self, _: RenderContext) -> Blank:
+        return _BlankValue(self.token)
+
+    def children(self) -> list[Expression]:
+        return []
+
+
+class _BlankValue(Blank):
+    """The value of the `blank` keyword, which renders as an empty string."""
+
+    __slots__ = ()
+
+    def __str__(self) -> str:
         return ""
 
     def evaluate(self, _: RenderContext) -> Blank:
         return self
-
-    def children(self) -> list[Expression]:
-        return []
 
 
 class Continue(Expression):
